@@ -65,7 +65,8 @@ def all_harness_names(acc_index):
 
 
 def _run_one(crate, qual, timeout):
-    cmd = ["cargo", "kani", "--harness", qual, "--exact", "-Z", "stubbing", "--no-assertion-reach-checks", "--output-format", "terse"]
+    cmd = ["cargo", "kani", "--harness", qual, "--exact", "-Z", "stubbing", "-Z", "concrete-playback", "--concrete-playback=print",
+           "--no-assertion-reach-checks", "--output-format", "terse"]
     rc, out, err, dt = vlib.run(cmd, cwd=crate, timeout=timeout, env={"CARGO_TARGET_DIR": os.path.join(crate, "target")})
     txt = out + "\n" + err
     r = {"time_s": round(dt, 1), "status": "UNKNOWN", "failed_checks": [], "cmd": " ".join(cmd)}
@@ -90,6 +91,14 @@ def _run_one(crate, qual, timeout):
         r["status"] = "UNWIND"  # a tool bound, not a semantic failure
     if re.search(r"out of memory|Killed|memory exhausted", txt, re.I):
         r["status"] = "OOM"
+    if r["status"] == "FAILED":
+        # the verifier's counterexample: Kani's concrete values for every kani::any() of the harness, in call order
+        m = re.findall(r"Concrete playback unit test for `[^`]*`:\s*```\s*(.*?)```", txt, re.S)
+        if m:
+            r["values"] = m[-1].strip()[:4000]
+        chk = re.findall(r"Check for `assertion`: \"([^\n]*)\"", txt)
+        if chk:
+            r["detail"] = "; ".join(chk[:3])[:500]
     vt = re.search(r"Verification Time: ([\d.]+)s", txt)
     if vt:
         r["cbmc_s"] = round(float(vt.group(1)), 2)
